@@ -10,6 +10,7 @@ instruction 0 (a self tail call) the data and scope stacks have the depths of th
 -/
 import ZygoVerif.Proofs.RunPrim
 import ZygoVerif.Proofs.TailSite
+import ZygoVerif.Proofs.TailVM
 set_option linter.unusedSimpArgs false
 set_option linter.unusedVariables false
 namespace ZygoVerif.RunInv
@@ -175,5 +176,79 @@ theorem reentry_depths (b : Base) (E E' : St) (top : Act) (rest : List Act) (hw 
   have := congrArg List.length d2
   simp only [List.length_map, List.length_append, List.length_replicate] at *
   omega
+
+/-! ## The tail sequence is a stretch of the same activation -/
+open ZygoVerif.TailVM
+
+theorem VmStep.at {s s1 : St} {p : Nat} {i : Instr} {is : List Instr} (h : At s p (i :: is)) (n : Nat)
+    (hex : (exec (n + 1) i).run s = (.ok (), s1)) : VmStep s s1 :=
+  ⟨n, i, h.fetch.1, h.fetch.2, hex⟩
+
+theorem reachAbove_removeScopes :
+    ∀ (m : Nat) (s : St) (p : Nat) (rest : List Instr) (ext L : List (Option Nat)),
+      At s p (List.replicate m Instr.removeScope ++ rest) → s.linear = ext ++ L → ext.length = m →
+      ReachAbove s.addr.length s { s with pc := s.pc + m, linear := L } ∧
+      At { s with pc := s.pc + m, linear := L } (p + m) rest := by
+  intro m
+  induction m with
+  | zero =>
+    intro s p rest ext L h hl he
+    have : ext = [] := List.length_eq_zero_iff.mp he
+    subst this
+    simp only [List.nil_append] at hl
+    have hs : ({ s with pc := s.pc + (0 : Nat), linear := L } : St) = s := by
+      cases s; simp at hl; simp [hl]
+    rw [hs]
+    exact ⟨.refl (Nat.le_refl _), by simpa using h⟩
+  | succ m ih =>
+    intro s p rest ext L h hl he
+    cases ext with
+    | nil => simp at he
+    | cons top ext' =>
+      simp only [List.replicate_succ, List.cons_append] at h
+      have hl' : s.linear = top :: (ext' ++ L) := by simpa using hl
+      have hex := exec_removeScope 0 s top (ext' ++ L) hl'
+      obtain ⟨s1, hs1⟩ : ∃ s1 : St, s1 = { s with pc := s.pc + 1, linear := ext' ++ L } := ⟨_, rfl⟩
+      rw [← hs1] at hex
+      have hat1 : At s1 (p + 1) (List.replicate m Instr.removeScope ++ rest) :=
+        ⟨by simp [hs1, h.pc], by simpa [hs1, fnOf] using h.compiled, by simpa [hs1, fnOf] using h.code.head.2.2⟩
+      obtain ⟨ihr, iha⟩ := ih s1 (p + 1) rest ext' L hat1 (by simp [hs1]) (by simpa using he)
+      have hst : ({ s1 with pc := s1.pc + (m : Int), linear := L } : St) = { s with pc := s.pc + ((m + 1 : Nat) : Int), linear := L } := by
+        simp [hs1]; omega
+      rw [hst] at ihr iha
+      have ha1 : s1.addr.length = s.addr.length := by rw [hs1]
+      rw [ha1] at ihr
+      refine ⟨.step (Nat.le_refl _) (VmStep.at h 0 hex) ihr, ?_⟩
+      have e2 : p + (m + 1) = p + 1 + m := by omega
+      rw [e2]
+      exact iha
+
+/-- the `k+3` steps of the tail sequence never go below the address depth they start at -/
+theorem tailSeq_reachAbove (s : St) (p : Nat) (x : String) (nargs k : Nat)
+    (rest : List Instr) (ext L : List (Option Nat)) (data' : List (Option Val))
+    (hat : At s p (tailSeq x nargs k ++ rest))
+    (hprep : ∀ n, (exec (n + 1) (.prepareCall x nargs)).run s = (.ok (), { s with pc := s.pc + 1, data := data' }))
+    (hlin : s.linear = ext ++ L) (he : ext.length = k + 1) :
+    ReachAbove s.addr.length s { s with pc := 0, linear := L, data := data' } := by
+  simp only [tailSeq, List.append_assoc, List.cons_append, List.nil_append] at hat
+  obtain ⟨s1, hs1⟩ : ∃ s1 : St, s1 = { s with pc := s.pc + 1, data := data' } := ⟨_, rfl⟩
+  have h1 : VmStep s s1 := VmStep.at hat 0 (by rw [hs1]; exact hprep 0)
+  have hat1 : At s1 (p + 1) (List.replicate (k + 1) Instr.removeScope ++ (Instr.goto 0 :: rest)) :=
+    hat.next (by simp [hs1]) (by simp [hs1]) (by simp [hs1])
+  obtain ⟨h2, hat2⟩ := reachAbove_removeScopes (k + 1) s1 (p + 1) (Instr.goto 0 :: rest) ext L hat1
+    (by simp [hs1, hlin]) he
+  obtain ⟨s2, hs2⟩ : ∃ s2 : St, s2 = { s1 with pc := s1.pc + ((k + 1 : Nat) : Int), linear := L } := ⟨_, rfl⟩
+  rw [← hs2] at h2 hat2
+  have hsz : ((0 : Nat) : Int) ≤ curSize s2 := by
+    have : curSize s2 = ((fnOf s2 s2.curfunc).code.length : Int) := by simp [curSize, hat2.compiled]
+    rw [this]; omega
+  have h3 : VmStep s2 { s2 with pc := ((0 : Nat) : Int) } := VmStep.at hat2 0 (exec_goto 0 s2 0 hsz)
+  have e : ({ s2 with pc := ((0 : Nat) : Int) } : St) = { s with pc := 0, linear := L, data := data' } := by
+    simp [hs2, hs1]
+  rw [e] at h3
+  have ha1 : s1.addr.length = s.addr.length := by rw [hs1]
+  have ha2 : s2.addr.length = s.addr.length := by rw [hs2, hs1]
+  rw [ha1] at h2
+  exact .step (Nat.le_refl _) h1 (h2.trans (.step (by rw [ha2]; exact Nat.le_refl _) h3 (.refl (Nat.le_refl _))))
 
 end ZygoVerif.RunInv
